@@ -177,6 +177,16 @@ add("C10", "other",
     "the primitives as Slice.v says (that is what the correspondence run checks).",
     COMMON_NOTE, "Coq theorem on a slice/backing-array model for every capacity oracle + differential runs of value.Type and whole programs")
 
+add("C16", "other",
+    "Partial. Proved in Coq about the model of the read-eval loop and the file reader (Repl.v): a script whose top-level "
+    "statements are each complete is handed to processInput statement by statement, each as if entered on its own; a final line "
+    "break is irrelevant; bytes inside string literals and comments never count. Decided each run: the model against the real "
+    "node.Loop/FReader on ~600 arbitrary line sequences (recording parser); ~120 generated scripts (multi-line blocks, arrays and "
+    "strings with braces/brackets/quotes/semicolons in strings and comments, with and without final line break) run by the built "
+    "binary in file mode and as piped REPL and compared byte for byte with processInput per statement; ~45 single statements run "
+    "in all three modes. Not proved: that processInput itself behaves identically in the three modes (decided by the runs).",
+    COMMON_NOTE, "Coq theorems on the loop/file-reader model + differential runs of the built binary in its three modes against processInput per statement")
+
 PENDING_REASON = "check under construction in this round (the technique applies; see DESIGN.md section 6); not yet claimed"
 
 
